@@ -80,7 +80,6 @@ def run(tier, only=None):
                                   "find_reg.0": te.tb["reg_rows"] + 2, "strcmp.0": 12, "vf_model_strtoul.0": 30, "vf_model_strtoul.1": 30,
                                   "__CPROVER_file_local_tokenizer_c_operand_tok.0": 8,
                                   "str_to_instr_key.0": te.tb["instr_rows"] + 8, "str_to_instr_key.1": te.tb["instr_rows"] + 8})
-    rep.add(core.pmap(ujob, units))
     # encoder/emitter paths on well-formed lines with all checks enabled
     eng = enc.EncEngine("C09", tier)
     pool = families.c01_families(True) + families.c04_families(True) + families.c02_families(True, pool=True) + families.c03_families(True) + \
@@ -89,7 +88,10 @@ def run(tier, only=None):
     sks = pool[::step]
     if only:
         sks = [s for s in sks if fnmatch.fnmatch("c09.enc." + s.name, only)]
-    rep.add(core.pmap(eng.run_safety, sks))
+    # one pool for both kinds of query (the long text-layer units first, so that they overlap with the many short ones)
+    jobs = sorted([("u", u) for u in units], key=lambda j: 0 if j[1][0].startswith("c09.filter") or ".kw." in j[1][0] or ".memtok." in j[1][0] else 1) + \
+        [("s", sk) for sk in sks]
+    rep.add(core.pmap(lambda j: ujob(j[1]) if j[0] == "u" else eng.run_safety(j[1]), jobs))
     return rep.finish(
         {"units": [u[0] for u in units], "enc_skeletons_with_full_checks": len(sks),
          "symbolic_per_query": "filter: every byte string of up to %d bytes, and every string of a fixed 90-character significant prefix followed by up to 16 arbitrary bytes (crossing the end of the 100-byte line buffer), through the line filter and str_to_instr's line skipping, with the precondition of line_to_instr checked; opds: 'mov o1,..,ok' with k operands of arbitrary non-separator characters through the real instr_tok/operand_tok and their callees, the keyword scanner replaced by its contract stub (it is decided by the kw leaf); leaves: each scanner on an arbitrary printable string of every length up to %d, placed at the start and flush against the end of the line buffer (one query per length and placement); enc: well-formed skeletons of C01-C05 (symbolic registers/numbers/options) with CBMC's pointer, bounds, overflow, shift and conversion checks on every library statement" % (fl, leaflen)},
